@@ -53,6 +53,7 @@ func prodCampaign(rc *RunCtx, chains, steps int) {
 		p.Run(steps, 40)
 		c04Conservation(e)
 	}
+	ProbeHistory(rc, rc.Pick(240, 900), rc.Shard%2 == 1)
 }
 
 func prodShards(t string) int { return map[string]int{"quick": 4, "thorough": 16}[t] }
